@@ -533,6 +533,37 @@ fn corpus(ctx: &Ctx, sink: &mut dyn FnMut(String, Doc)) {
     }
     attr_docs(thorough, sink);
     text_docs(sink);
+    // tail family: documents with ONE executable-content block that ends with a given element, so that the
+    // encoding of every element kind (and of its last field) is the end of an image once
+    let mut tails: Vec<Stmt> = leaf_menu();
+    tails.push(Stmt::Foreach {
+        array: Expr::Arr(vec![1, 2]),
+        item: "it".into(),
+        index: Some("ix".into()),
+        body: vec![],
+    });
+    tails.push(Stmt::Foreach {
+        array: Expr::Arr(vec![1]),
+        item: "it".into(),
+        index: None,
+        body: vec![Stmt::Raise("in.loop".into())],
+    });
+    tails.push(Stmt::If {
+        branches: vec![(Expr::VarEq("v".into(), 1), vec![Stmt::Raise("in.if".into())])],
+        els: None,
+    });
+    tails.push(Stmt::If {
+        branches: vec![(Expr::VarEq("v".into(), 1), vec![])],
+        els: Some(vec![Stmt::Raise("in.else".into())]),
+    });
+    tails.push(Stmt::Raise("\u{e9}v\u{e9}nement.\u{20ac}".into()));
+    for (ti, t) in tails.into_iter().enumerate() {
+        let mut d = Doc::new();
+        d.nodes[0].data.push(("v".into(), Some(Expr::Int(0))));
+        let a = d.add(0, "a", Kind::State);
+        d.nodes[a].onentry.push(vec![t]);
+        sink(format!("tail {}", ti), d);
+    }
 }
 
 // ------------------------------------------------------------------------------------------ helpers
@@ -1243,7 +1274,7 @@ fn worker(ctx: &Ctx) {
             "C05" => check_c05_doc(ctx, &mut out, my, &label, &d),
             "C18" => {
                 // quick tier: every 12th document of the corpus (all structure classes are still represented)
-                if ctx.thorough() || my % 12 == 0 {
+                if ctx.thorough() || my % 12 == 0 || label.starts_with("tail") {
                     check_c18_doc(ctx, &mut out, my, &label, &d)
                 }
             }
